@@ -246,7 +246,13 @@ def gen_fastq(rng, n):
                     keys.append(it[0])
         else:
             s, q = entry(2)
-            ops.append({"op": "bad", "what": "length_mismatch", "k": rng.choice(ids), "seq": s, "scores": q[:-1]})
+            if rng.random() < 0.5:
+                ops.append({"op": "bad", "what": "length_mismatch", "k": rng.choice(ids), "seq": s, "scores": q[:-1]})
+            else:
+                # refused late: the lengths agree, but one score has no character in any offset (found only when the
+                # score string is built, after the entry to be replaced may already have been taken out)
+                ops.append({"op": "bad", "what": "unencodable_score", "k": rng.choice(keys) if keys and rng.random() < 0.8 else rng.choice(ids),
+                            "seq": s, "scores": [100] + list(q[1:])})  # 100 + 33 and 100 + 64 are both beyond ASCII
     return {"cfg": cfg, "ops": ops}
 
 
@@ -1181,6 +1187,17 @@ class FastqSim(Base):
     def op_bad(self, op):
         before = list(self.file.lines)
         st, v = call(self.file.__setitem__, op["k"], (op["seq"], np.array(op["scores"], dtype=int)))
+        if op["what"] == "unencodable_score":
+            # the statement asks for text and view to stay consistent, not for a refused replacement to be atomic: the
+            # entry under this identifier may be what it was, or gone; everything else must be what it was (checked by
+            # the consistency and model comparison after this step)
+            out = self.rejected(st, v, Exception, "unencodable-score")
+            st2, there = call(lambda: op["k"] in self.file)
+            if st2 == "exc":
+                self.fail("view:raised", what="contains after a refused replacement", got=exc_name(there))
+            if not there:
+                self.model.pop(op["k"], None)
+            return out
         out = self.rejected(st, v, ValueError, "length-mismatch")
         if self.file.lines != before:
             self.fail("rejection:changed-the-file", what=op["what"])
